@@ -341,14 +341,29 @@ def run(chk):
                 if v is not None and RANK.get(prog.T(f, v["t"]).replace("const ", "").strip(), 0) < RANK[T]:
                     bad.append("the digit is divided by `%s` of type %s" % (v["name"], prog.T(f, v["t"])))
         tens = all(vals <= {10, 10.0} for vals in scaled.values()) and len(scaled) >= 2
-        point = [n for n in walk(f["body"]) if n.get("k") == "assign" and n.get("op") == "=" and strip_casts(n["lhs"]).get("name") == "decimal_place"]
-        point_ok = bool(point) and {strip_casts(n["rhs"]).get("v") for n in point} <= {10, 0, 10.0, 0.0}
+        # the fraction's place value: the variable the digit is divided by
+        divisors = set()
+        for n in walk(f["body"]):
+            if n.get("k") == "binop" and n.get("op") == "/":
+                r = strip_casts(n["rhs"])
+                while r.get("k") in ("construct", "call") and r.get("args") and len(r["args"]) == 1:
+                    r = strip_casts(r["args"][0])
+                if r.get("vid") in locs:
+                    divisors.add(r["vid"])
+
+        def lit_of(e):
+            e = strip_casts(e)
+            while e.get("k") in ("construct", "initlist") and e.get("args") and len(e["args"]) == 1:
+                e = strip_casts(e["args"][0])
+            return e.get("v") if e.get("k") == "lit" else None
+        point = [n for n in walk(f["body"]) if n.get("k") == "assign" and n.get("op") == "=" and strip_casts(n["lhs"]).get("vid") in divisors]
+        point_ok = bool(point) and len(divisors) == 1 and {lit_of(n["rhs"]) for n in point} <= {10, 0, 10.0, 0.0}
         pw = [n for n in walk(f["body"]) if n.get("k") == "call" and n.get("name") == "pow"]
         pow_ok = len(pw) == 1 and any(x.get("k") == "lit" and x.get("v") in (10, 10.0) for x in walk(pw[0]["args"][0]))
         r7.ob("parse_num<%s>: every accumulator is a floating type at least as wide as %s" % (T, T), not bad, f.where, f["q"],
               "; ".join(bad) + ": an integer (or narrower) accumulator wraps or saturates after a fixed number of digits, the digits after that are scaled by a wrong power of ten")
         r7.ob("parse_num<%s>: digits are scaled by ten on both sides of the point and the exponent is a power of ten" % T, tens and point_ok and pow_ok, f.where, f["q"],
-              "per-digit factors %s; values given to decimal_place %s; pow base ten: %s" % ({k: sorted(map(str, v)) for k, v in scaled.items()}, [expr_str(prog, f, n["rhs"]) for n in point], pow_ok))
+              "per-digit factors %s; values assigned to the fraction's place value %s; pow base ten: %s" % ({k: sorted(map(str, v)) for k, v in scaled.items()}, [expr_str(prog, f, n["rhs"]) for n in point], pow_ok))
     r7.require(6, "obligations")
 
     # ------------------------------------------------------------------ R16.6 digit classes
